@@ -534,25 +534,26 @@ def gen_edits(rng, P):
 
 def rt_script(cid, P, fmt, with_solve, with_z, edits=(), mix=None):
     e = "lp" if fmt == "LP" else "mps"
+    fp = cid + "_"          # cases of one chunk share a scratch directory: file names carry the case id
 
     def wr(h, f, ff):
         """write op; an MPS write is preceded by the column-wise dump the MPS writer model needs"""
         return (["DUMPC h%d" % h] if ff == "MPS" else []) + ["WRITE h%d %s %s" % (h, f, ff)]
     L = ["CASE %s" % cid, load_block(0, P, mix)] + ["EDIT h0 %s" % x for x in edits] + ["DUMPO h0"] + \
-        wr(0, "a.%s" % e, fmt) + ["CAT a.%s" % e, "READ h1 a.%s %s" % (e, fmt), "DUMPO h1"] + \
-        wr(1, "b.%s" % e, fmt) + ["CAT b.%s" % e, "READ h2 b.%s %s" % (e, fmt), "DUMPO h2"]
+        wr(0, fp + "a.%s" % e, fmt) + ["CAT " + fp + "a.%s" % e, "READ h1 " + fp + "a.%s %s" % (e, fmt), "DUMPO h1"] + \
+        wr(1, fp + "b.%s" % e, fmt) + ["CAT " + fp + "b.%s" % e, "READ h2 " + fp + "b.%s %s" % (e, fmt), "DUMPO h2"]
     if fmt == "MPS":
         # LP rendering of the same problem; MPS -> LP -> MPS and LP -> MPS -> LP
-        L += ["WRITE h0 c.lp LP", "CAT c.lp", "READ h3 c.lp LP", "DUMPO h3",            # h3 = read_lp(write_lp P)
-              "WRITE h1 d.lp LP", "CAT d.lp", "READ h4 d.lp LP", "DUMPO h4"] + \
-             wr(4, "e.mps", "MPS") + ["CAT e.mps", "READ h5 e.mps MPS", "DUMPO h5"] + \
-             wr(3, "f.mps", "MPS") + ["CAT f.mps", "READ h6 f.mps MPS", "DUMPO h6",
-              "WRITE h6 g.lp LP", "CAT g.lp", "READ h7 g.lp LP", "DUMPO h7"]            # LP -> MPS -> LP
+        L += ["WRITE h0 " + fp + "c.lp LP", "CAT " + fp + "c.lp", "READ h3 " + fp + "c.lp LP", "DUMPO h3",            # h3 = read_lp(write_lp P)
+              "WRITE h1 " + fp + "d.lp LP", "CAT " + fp + "d.lp", "READ h4 " + fp + "d.lp LP", "DUMPO h4"] + \
+             wr(4, fp + "e.mps", "MPS") + ["CAT " + fp + "e.mps", "READ h5 " + fp + "e.mps MPS", "DUMPO h5"] + \
+             wr(3, fp + "f.mps", "MPS") + ["CAT " + fp + "f.mps", "READ h6 " + fp + "f.mps MPS", "DUMPO h6",
+              "WRITE h6 " + fp + "g.lp LP", "CAT " + fp + "g.lp", "READ h7 " + fp + "g.lp LP", "DUMPO h7"]            # LP -> MPS -> LP
     if with_solve:
         L += ["SOLVE h0", "SOLVE h1"]
     if with_z:
-        L += wr(0, "z.%s.gz" % e, fmt) + ["CAT z.%s.gz" % e, "READ h8 z.%s.gz %s" % (e, fmt), "DUMPO h8"] + \
-             wr(0, "z.%s.bz2" % e, fmt) + ["CAT z.%s.bz2" % e, "READ h9 z.%s.bz2 %s" % (e, fmt), "DUMPO h9"]
+        L += wr(0, fp + "z.%s.gz" % e, fmt) + ["CAT " + fp + "z.%s.gz" % e, "READ h8 " + fp + "z.%s.gz %s" % (e, fmt), "DUMPO h8"] + \
+             wr(0, fp + "z.%s.bz2" % e, fmt) + ["CAT " + fp + "z.%s.bz2" % e, "READ h9 " + fp + "z.%s.bz2 %s" % (e, fmt), "DUMPO h9"]
     return "\n".join(L) + "\n"
 
 
@@ -689,7 +690,7 @@ def run_roundtrip_check(ck, fmt, pr, gen):
                 s = o.next("SOLVE")
                 sols.append(solve_result(s) if s and s[0][0] == "SOLVE" else None)
         zs = []
-        if "z.%s.gz" % e in scripts[cid]:
+        if "_z.%s.gz" % e in scripts[cid]:
             for lab in ("z1", "z2"):
                 Pz, _, tz, why = step(P0, fmt, lab)
                 zs.append((Pz, tz, why))
@@ -760,7 +761,7 @@ def run_roundtrip_check(ck, fmt, pr, gen):
             if why is not None or tz is None or d["t1"] is None or tz != d["t1"]:
                 fails.append((cid, "%s target: %s" % (ext, why or "decompressed text differs from the plain file"), {fmt}, d["texts"]))
                 continue
-            path = os.path.join(where[cid], "z.%s%s" % (e, ext))
+            path = os.path.join(where[cid], "%s_z.%s%s" % (cid, e, ext))
             try:
                 import gzip, bz2
                 raw = (gzip.open if zi == 0 else bz2.open)(path, "rb").read()
